@@ -979,3 +979,146 @@ def r23(ctx, P):
                     break
                 ctx.ob('C10.23', ok, fn.name, 'append to %s->start[%s++]' % (field, cnt), ev.where(), why)
     ctx.floor('uses of the f64 scratch buffers', n, 3)
+
+
+def r24(ctx, P):
+    """the forward header scan of raw.c terminates and examines every aligned candidate"""
+    from ..fd import trace_calls, Top
+    fn = P.fn('jls_raw_chunk_scan')
+    ctx.saw(fn, 1)
+    hdr = P.record('jls_chunk_header_s')['size']
+    bad = []
+    total = 0
+    grid = [(s, s + r) for s in (0, 8, 4, 4096) for r in (0, 8, 16, 24, 32, 40, 56, 4096 - 8, 4096, 4096 + 8, 4096 + 24, 4096 + 32, 2 * 4096 + 16, 10000)]
+    for start, end in grid:
+        seen = []
+
+        def on_event(ev, env, sym, seen=seen):
+            if ev.k == 'call' and ev.callee == 'jls_crc32c_hdr' and isinstance(env.get('offset'), int):
+                seen.append(env['offset'])
+        env = {'self': 1, 'hdr.crc32': 1, 'b.crc32': 1}
+        try:
+            trace_calls(P, fn, env, assume_calls={None: 0, 'jls_raw_chunk_tell': start, 'jls_bk_ftell': end}, max_steps=60000,
+                        on_event=on_event, no_inline=('jls_raw_chunk_tell', 'invalidate_current_chunk'))
+        except Top:
+            bad.append('position %d, file size %d: the scan does not come to an end (or its skeleton is not decidable)' % (start, end))
+            continue
+        first = (start + 7) & ~7
+        want = list(range(first, end - hdr + 1, 8))
+        total += len(seen)
+        if seen != want:
+            missing = sorted(set(want) - set(seen))
+            bad.append('position %d, file size %d: %s' % (start, end, ('offsets %s%s are never examined' % (missing[:4], ' ...' if len(missing) > 4 else ''))
+                                                         if missing else 'candidates examined out of order or twice'))
+    ctx.ob('C10.24', not bad, fn.name, 'forward scan ends and covers every aligned offset', fn.where(),
+           '%d candidate offsets traced over %d (position, size) pairs; every trace ends' % (total, len(grid)) if not bad else
+           '; '.join(bad[:2]) + ' (%d of %d pairs)' % (len(bad), len(grid)))
+    ctx.floor('candidate offsets traced in the forward scan', total, 1000)
+
+
+def r25(ctx, P):
+    """a floating quotient that is converted to an integer has a divisor that was compared with zero"""
+    ROUNDERS = ('round', 'floor', 'ceil', 'trunc', 'lround', 'llround', 'rint', 'nearbyint', '__builtin_round', '__builtin_floor', '__builtin_ceil')
+    n = 0
+    for fn in P.all_functions():
+        if not fn.file.startswith('src/'):
+            continue
+        divs = []          # (event, division node)
+        for ev in fn.events():
+            for nd in walk(ev.e or {}):
+                if nd.get('op') == 'bin' and nd['o'] in ('/', '/=') and nd.get('t', '').startswith('f'):
+                    divs.append((ev, nd))
+        if not divs:
+            continue
+        for dev, dnd in divs:
+            # locals that carry the quotient
+            carriers = set()
+            if dev.k == 'decl':
+                carriers.add(dev.name)
+            elif dev.k == 'store':
+                l0 = strip_casts(dev.store_parts()[0])
+                if l0.get('op') == 'ref':
+                    carriers.add(l0['name'])
+            changed = True
+            while changed:
+                changed = False
+                for ev in fn.events():
+                    if ev.k not in ('decl', 'store') or ev.e is None:
+                        continue
+                    rhs = ev.e if ev.k == 'decl' else ev.store_parts()[1]
+                    tgt = ev.name if ev.k == 'decl' else strip_casts(ev.store_parts()[0]).get('name')
+                    if rhs is None or tgt is None or tgt in carriers:
+                        continue
+                    if any(m.get('op') == 'ref' and m.get('name') in carriers for m in walk(rhs)):
+                        carriers.add(tgt)
+                        changed = True
+            # is the quotient (or a carrier) converted to an integer anywhere?
+            conv = None
+            for ev in fn.events():
+                for nd in walk(ev.e or {}):
+                    if nd.get('op') == 'cast' and nd.get('t', '')[:1] in ('i', 'u') and nd.get('t', '') not in ('',):
+                        inner = nd['k'][0]
+                        it = strip_casts(inner).get('t', '')
+                        if not (it.startswith('f') or (strip_casts(inner).get('op') == 'call' and strip_casts(inner).get('callee') in ROUNDERS)):
+                            continue
+                        if any(m is dnd for m in walk(inner)) or any(m.get('op') == 'ref' and m.get('name') in carriers for m in walk(inner)):
+                            conv = ev
+            if conv is None:
+                continue
+            n += 1
+            ctx.saw(fn, 1)
+            divisor = strip_casts(dnd['k'][1])
+            c = const_of(divisor)
+            key = 'quotient %s converted to an integer' % show(dnd)[:40]
+            if c is not None:
+                ctx.ob('C10.25', c != 0, fn.name, key, dev.where(), 'constant divisor %s' % c)
+                continue
+            dtxt = show(divisor)
+            # edges on which the divisor is known to differ from zero
+            nz = set()
+            for b in fn.blocks.values():
+                cc = strip_casts(b.cond) if b.cond is not None else None
+                if cc is None or len(b.succs) < 2:
+                    continue
+                neg = False
+                while cc.get('op') == 'un' and cc.get('o') == '!':
+                    neg = not neg
+                    cc = strip_casts(cc['k'][0])
+                if show(cc) == dtxt:
+                    nz.add((b.id, 'F' if neg else 'T'))
+                elif cc.get('op') == 'bin' and cc['o'] in ('<=', '<', '>', '>=', '==', '!='):
+                    l, r = strip_casts(cc['k'][0]), strip_casts(cc['k'][1])
+                    o = cc['o']
+                    def num(e_):
+                        if e_.get('op') == 'flit':
+                            return e_.get('f')
+                        return const_of(e_)
+                    if show(r) == dtxt and num(l) is not None:
+                        l, r = r, l
+                        o = {'<': '>', '>': '<', '<=': '>=', '>=': '<=', '==': '==', '!=': '!='}[o]
+                    if show(l) != dtxt or num(r) is None:
+                        continue
+                    k = num(r)
+                    t_nonzero = (o == '>' and k >= 0) or (o == '>=' and k > 0) or (o == '<' and k <= 0) or (o == '<=' and k < 0) or (o == '!=' and k == 0)
+                    f_nonzero = (o == '<=' and k >= 0) or (o == '<' and k > 0) or (o == '>=' and k <= 0) or (o == '>' and k < 0) or (o == '==' and k == 0)
+                    if t_nonzero:
+                        nz.add((b.id, 'F' if neg else 'T'))
+                    if f_nonzero:
+                        nz.add((b.id, 'T' if neg else 'F'))
+            # from the definition of the divisor (a local) or the entry to the division
+            start = 'entry'
+            d0 = divisor
+            if d0.get('op') == 'ref' and d0.get('rk') == 'local':
+                defs = [e_ for e_ in fn.events() if (e_.k == 'decl' and e_.name == d0['name']) or
+                        (e_.k == 'store' and strip_casts(e_.store_parts()[0]).get('name') == d0['name'])]
+                if len(defs) == 1:
+                    start = defs[0]
+            w = find_path(fn, start, lambda e2, facts: 'target' if e2 is dev else None, refine=False,
+                          edge_ok=lambda b_, s_, lab: (b_.id, lab) not in nz)
+            if w is None and start != 'entry' and start is dev:
+                w = None
+            ctx.ob('C10.25', w is None, fn.name, key, dev.where(),
+                   'the divisor %s is compared with zero on every path to the division' % dtxt if w is None else
+                   'the divisor %s can be 0 (e.g. two neighbouring entries with the same value): the quotient is inf or NaN and its conversion to an integer is undefined behaviour - on x86 the caller receives INT64_MIN as a valid result' % dtxt,
+                   w.render() if w else None)
+    ctx.floor('floating quotients converted to integers', n, 2)
